@@ -286,12 +286,13 @@ def merge_stats(files):
 
 
 def write_evidence(prop, tier, seed, cov, assumptions, wall, violations, extra=None):
-    os.makedirs(os.path.join(VERIF, 'evidence'), exist_ok=True)
+    evdir = os.environ.get('RSV_EVIDENCE_DIR', os.path.join(VERIF, 'evidence'))
+    os.makedirs(evdir, exist_ok=True)
     ev = dict(property_id=prop, tier=tier, seed=int(seed), level='exploration', coverage=cov, assumptions=assumptions,
               wall_s=round(wall, 2), violations=int(violations))
     if extra:
         ev.update(extra)
-    p = os.path.join(VERIF, 'evidence', prop + '.json')
+    p = os.path.join(evdir, prop + '.json')
     with open(p + '.tmp', 'w') as f:
         json.dump(ev, f, indent=1)
     os.rename(p + '.tmp', p)
